@@ -2,8 +2,9 @@
 import native
 
 
-def run_native(which, period, horizon, abort=None, stop_target=None):
-    out, _, rc, err = native.run('timers', which=which.split('::')[-1], period_ms=period, horizon_ms=horizon, abort_ms=abort, stop_target_ms=stop_target, timeout=30)
+def run_native(which, period, horizon, abort=None, stop_target=None, stall_at=None, stall=None):
+    out, _, rc, err = native.run('timers', which=which.split('::')[-1], period_ms=period, horizon_ms=horizon, abort_ms=abort, stop_target_ms=stop_target, stall_at_ms=stall_at, stall_ms=stall,
+                                 timeout=30)
     if rc != 0:
         raise RuntimeError('native timer replay failed: ' + err[-300:])
     return [x for x in out.get('log', '').split(',') if x]
@@ -44,6 +45,12 @@ def replay(which):
         t = times(log, 'msg:')
         if t != [100, 200, 300, 400, 500]:
             bad.append('k-th message at k periods without drift: deliveries at %s' % t)
+        # the executor is stalled from 150 to 280 (one deadline missed): the late message goes out at 280, the following ones are back on the grid
+        log = run_native(w, p, 560, stall_at=150, stall=130)
+        obs['stalled'] = log
+        t = times(log, 'msg:')
+        if any(tk > max((k + 1) * p, 280) for k, tk in enumerate(t)) or len(t) < 5:
+            bad.append('k-th message at k periods without drift after a late poll: deliveries at %s' % t)
         log = run_native(w, p, 560, stop_target=250)
         obs['target_stops'] = log
         t = times(log, 'msg:')
